@@ -177,6 +177,15 @@ def sites_of(body, tnt):
                 if T.C in ib or T.L in cb:
                     ec, ei = body.operand_expr(args[0]), body.operand_expr(args[1])
                     yield Site(body, bb, "index", "%s[%s]" % (show(ec), show(ei)), (ec, ei))
+            elif q in ("circular_buffer::BufferReader::consume", "circular_buffer::BufferWriter::produce") and len(args) >= 2:
+                # the stream refuses (panics on) a consume / commit larger than the window: a count that comes out of the input
+                # needs a guard against the window's length
+                ce_ = body.operand_expr(args[1])
+                sized = any(x.k == "call" and (x.q or "").split("::")[-1] in ("len", "min", "count") for x in walk(ce_))
+                # counts built from lengths / minima are the business of C09.R10; here: a number that came out of the input
+                if T.C in tnt.op_bits(body, args[1]) and not sized and name == "consume":
+                    yield Site(body, bb, "window:" + name, "%s(%s)" % (name, show(body.operand_expr(args[1]))),
+                               (body.operand_expr(args[0]), body.operand_expr(args[1])))
             elif name in ("split_at", "split_at_mut") and q.startswith("str::") and len(args) == 2:
                 # a str is cut at a BYTE index: besides mid <= len the index must be a char boundary - a length guard proves nothing
                 if T.C in tnt.op_bits(body, args[0]) or T.L in tnt.op_bits(body, args[0]) or T.C in tnt.op_bits(body, args[1]):
@@ -200,6 +209,21 @@ def discharge(site, facts=None):
     """Return a reason string if the site is provably safe by local guard reasoning, else None."""
     body, bb = site.body, site.bb
     k = site.kind
+    if k in ("window:consume", "window:produce"):
+        w, cnt = site.operands
+        lnq = "circular_buffer::BufferReader::len" if k.endswith("consume") else "circular_buffer::BufferWriter::len"
+        mine = E("call", q=lnq, args=[E("ref", a=peel(w))])
+        if known_ge(body, bb, mine, cnt):
+            return "count bounded by the window's len() by a guard / by construction"
+        from . import c09 as _c09
+        ubs = []
+        _c09._upper_bounds(cnt, ubs)
+        root = _c09._window_root(w)
+        if root is not None and any(_c09._len_root(u) is not None and same_expr(_c09._len_root(u), root) and not m for u, m in ubs):
+            return "count bounded by the window's len() by construction"
+        if any(known_ge(body, bb, mine, u) for u, m in ubs if not m):
+            return "count bounded by a value the window is established to hold"
+        return None
     if k == "str:split_at":
         s_, mid = site.operands
         pm = peel(mid, through_try=False)
